@@ -9,9 +9,27 @@ sys.path[:0] = ["/repo", "/verif"]
 from harness import diffexec  # noqa: E402
 
 
+def _convert_row(job):
+    src, triples = job
+    sys.setrecursionlimit(20000)
+    row = []
+    for tr in triples:
+        try:
+            row.append(["ok", diffexec.convert(src, tr)])
+        except RecursionError:
+            row.append(["err", "RecursionError"])
+        except Exception as e:
+            row.append(["err", type(e).__name__ + ": " + str(e)[:100]])
+    return row
+
+
 def main():
     job = json.load(sys.stdin)
     triples = [tuple(t) for t in job["triples"]]
+    if job.get("mode") == "convert":
+        out = diffexec.pool().map(_convert_row, [(src, triples) for src in job["sources"]], chunksize=4)
+        json.dump({"version": list(sys.version_info[:3]), "results": out}, sys.stdout)
+        return
     res = diffexec.run_many(job["sources"], triples, need_clean=job.get("need_clean", True))
     json.dump({"version": list(sys.version_info[:3]), "results": res}, sys.stdout)
 
